@@ -405,9 +405,123 @@ def h_web_report(v1: str, v2: str, v3: str, has_b: bool, undefined: bool, name_p
     return run(body_web_report, v1, v2, v3, has_b, undefined, name_present, text, nres, with_limit, depth0)
 
 
+# ------------------------------------------------------------------ real vCards, real vobject, real filter code
+def _load_pristine_card():
+    import importlib
+    import sys
+    saved = {k: v for k, v in sys.modules.items() if k == "xandikos" or k.startswith("xandikos.")}
+    for k in list(saved):
+        del sys.modules[k]
+    try:
+        cdav = importlib.import_module("xandikos.carddav")
+        vc = importlib.import_module("xandikos.vcard")
+    finally:
+        for k in [k for k in sys.modules if k == "xandikos" or k.startswith("xandikos.")]:
+            del sys.modules[k]
+        sys.modules.update(saved)
+    return cdav, vc
+
+
+_REAL_CARDDAV, _REAL_VCARD = _load_pristine_card()
+
+
+def _vc(x):
+    return b"BEGIN:VCARD\r\nVERSION:3.0\r\n" + x + b"END:VCARD\r\n"
+
+
+RV_CARDS = [
+    _vc(b"FN:John Doe\r\nN:Doe;John;;;\r\nEMAIL;TYPE=work:john@example.com\r\nTEL;TYPE=home,voice:+1 555\r\n"),
+    _vc("FN:J\u00f6rg M\u00fcller\r\nN:M\u00fcller;J\u00f6rg;;;\r\nitem1.EMAIL;TYPE=INTERNET:jm@example.org\r\nCATEGORIES:friends,work\r\n".encode("utf-8")),
+    _vc(b"FN:x\r\nN:x;;;;\r\n"),
+]
+# (filter test attribute, [(property, child kind, arguments)]); answers by hand from RFC 6352 10.5
+RV_FILTERS = [
+    (None, [("FN", "text", ("doe", None, None, None))]),
+    (None, [("EMAIL", "undef", ())]),
+    (None, [("EMAIL", "param-text", ("TYPE", "WORK"))]),
+    (None, [("FN", "text", ("m\u00fcller", None, "i;unicode-casemap", None))]),
+    (None, [("FN", "text", ("J", "starts-with", None, None))]),
+    (None, [("FN", "text", ("doe", "ends-with", "i;ascii-casemap", None))]),
+    (None, [("FN", "text", ("x", "equals", None, None))]),
+    ("allof", [("FN", "text", ("john", None, None, None)), ("EMAIL", "text", ("example.com", None, None, None))]),
+    (None, [("FN", "text", ("zzz", None, None, None)), ("EMAIL", "text", ("example.org", None, None, None))]),
+    (None, [("TEL", "param-undef", ("TYPE",))]),
+    (None, [("FN", "text", ("doe", None, None, "yes"))]),
+    (None, [("EMAIL", "text", ("JM@EXAMPLE", None, None, None))]),
+    (None, [("fn", "text", ("DOE", None, "i;octet", None))]),
+    (None, [("email", "param-text", ("type", "internet"))]),
+    (None, []),
+]
+RV_EXPECT = ["TFTFTTFTFFFFFFT", "FFFTTFFFTFTTFTT", "FTFFFFTFFFTFFFT"]
+
+
+def _rv_filter(spec):
+    test, pfs = spec
+    f = ET.Element("{%s}filter" % NS)
+    if test:
+        f.set("test", test)
+    for (name, kind, a) in pfs:
+        p_ = ET.SubElement(f, "{%s}prop-filter" % NS)
+        p_.set("name", name)
+        if kind == "undef":
+            ET.SubElement(p_, "{%s}is-not-defined" % NS)
+        elif kind == "text":
+            e = ET.SubElement(p_, "{%s}text-match" % NS)
+            e.text = a[0]
+            if a[1]:
+                e.set("match-type", a[1])
+            if a[2]:
+                e.set("collation", a[2])
+            if a[3]:
+                e.set("negate-condition", a[3])
+        else:
+            q = ET.SubElement(p_, "{%s}param-filter" % NS)
+            q.set("name", a[0])
+            if kind == "param-undef":
+                ET.SubElement(q, "{%s}is-not-defined" % NS)
+            else:
+                ET.SubElement(q, "{%s}text-match" % NS).text = a[1]
+    return f
+
+
+def body_real_cards(ci, fi):
+    """Real vCards (ASCII, non-ASCII names, a grouped property, multi-valued parameters) through the REAL vobject
+    parser and the real apply_filter (anyof / allof, presence, is-not-defined, the four match types, collations,
+    negation, param-filter in either case, the empty filter), against answers worked out by hand from RFC 6352."""
+    from xv.core import picks, untraced
+    ci, fi = picks((ci, fi), (len(RV_CARDS), len(RV_FILTERS)))
+    with untraced():
+        class _R:
+            def get_content_type(self):
+                return "text/vcard"
+
+            async def get_file(self):
+                return _REAL_VCARD.VCardFile([RV_CARDS[ci]], "text/vcard")
+
+        got = bool(drive(_REAL_CARDDAV.apply_filter(_rv_filter(RV_FILTERS[fi]), _R())))
+        want = RV_EXPECT[ci][fi] == "T"
+        return (got == want, "hit" if want else "miss")
+
+
+def h_real_cards(ci: int, fi: int) -> bool:
+    """
+    pre: 0 <= ci < len(RV_CARDS) and 0 <= fi < len(RV_FILTERS)
+    post: _
+    """
+    return run(body_real_cards, ci, fi)
+
+
 _B = {"quick": {"slen": 3, "nmembers": 2}, "thorough": {"slen": 4, "nmembers": 3}}
 
 HARNESSES = [
+    Harness("real_cards", h_real_cards, body_real_cards, classes=["hit", "miss"], budget={"quick": 45, "thorough": 90},
+            describe="3 real vCards x 15 filters through the real vobject parser and the real apply_filter, against answers "
+                     "worked out by hand from RFC 6352 10.5 (non-ASCII names, grouped property, parameter names in either "
+                     "case, allof / anyof, the four match types, collations, negation, empty filter); exhaustive over the "
+                     "corpus; nothing stubbed",
+            encodes=["xandikos.carddav.apply_filter", "xandikos.carddav.apply_prop_filter", "xandikos.carddav.apply_param_filter",
+                     "xandikos.carddav.apply_text_match", "xandikos.carddav.addressbook_from_resource",
+                     "xandikos.vcard.VCardFile.addressbook", "xandikos.collation.collations"]),
     Harness("web_report", h_web_report, body_web_report, classes=["all:2", "all:1", "all:0", "limited:1", "depth0"], bounds=_B,
             budget={"quick": 90, "thorough": 420}, twin_budget={"quick": 45, "thorough": 90},
             describe="REPORT addressbook-query through the real XandikosApp on the model world: an address book holding "
